@@ -292,7 +292,7 @@ func init() {
 			" Round 5: (R17) no allocation is sized by a number written in the program." +
 			" Round 6: (R18) the handlers of steering instructions cannot fail; (R19) a listed directory entry is used as a file only behind an IsDir test; (R20) every replace mode has a writer (CONFIRM: known finding); (R21) no method call on a result that may be a nil interface without a nil test." +
 			" Round 8: (R22) relocation builds new instructions and leaves its receiver alone; (R23) the window of a match is applied where the scan counts matches. (R24) what is allocated because more is needed than the capacity holds is sized by what is needed." +
-			" Round 9: (R25) the names the semantic check types are bound with that type by the engine in every environment (shared with C12). (R26) a read in front of the current position stands behind a test of the position or a CONSUME.",
+			" Round 9: (R25) the names the semantic check types are bound with that type by the engine in every environment (shared with C12). (R26) a read in front of the current position stands behind a test of the position or a CONSUME. (R27) inside the loop over the commands RunFiles does not both rename files and look the names of its list up again (known finding: with -filenames the second command panics on a file the first renamed).",
 		Assumptions: commonAssumptions,
 		Rules: []RuleFn{
 			{Name: "C09.R1", Run: func(c *Ctx) {
@@ -372,6 +372,7 @@ func init() {
 			{Name: "C09.R24", Run: func(c *Ctx) { ruleGrowthCoversNeed(c, "C09.R24") }},
 			{Name: "C09.R25", Run: func(c *Ctx) { ruleCheckerAlwaysRun(c, "C09.R25") }},
 			{Name: "C09.R26", Run: func(c *Ctx) { ruleLookBehindGuarded(c, "C09.R26") }},
+			{Name: "C09.R27", Run: func(c *Ctx) { ruleNamesSurviveTheCommandLoop(c, "C09.R27") }},
 		},
 	})
 	register(&Property{
